@@ -313,6 +313,38 @@ func c10Project(nm *c10Names, ps *PartSet, orig []byte) map[string]interface{} {
 			} else {
 				post["reasm"] = "different"
 			}
+			// the same through Read calls with caller-chosen buffers: "reassembles to exactly the original bytes"
+			// is a statement about the reader, whatever buffer sizes its consumer happens to use
+			if post["reasm"] == "equal" {
+				psz := 0
+				if p0 := ps.GetPart(0); p0 != nil {
+					psz = len(p0.Bytes)
+				}
+				bufs := []int{}
+				if psz <= 64 {
+					for b := 1; b <= 2*psz+3; b++ {
+						bufs = append(bufs, b)
+					}
+				} else {
+					bufs = []int{1000, 4096, psz/2 + 1, psz - 1, psz, psz + 1, psz + psz/3, 2*psz + 1}
+				}
+				for _, b := range bufs {
+					rd := ps.GetReader()
+					var acc []byte
+					buf := make([]byte, b)
+					for it := 0; it < 10*len(orig)+100; it++ {
+						k, e := rd.Read(buf)
+						acc = append(acc, buf[:k]...)
+						if e != nil {
+							break
+						}
+					}
+					if !bytes.Equal(acc, orig) {
+						post["reasm"] = "different:buffer"
+						break
+					}
+				}
+			}
 		}()
 	}
 	return post
